@@ -280,7 +280,7 @@ pub enum Version { V1, V2, V3 }
 #[derive(Clone, Copy, Debug, PartialEq, Eq, Serialize, Deserialize)]
 pub enum Indicators { None, Wall, Std, Ut }
 
-fn block(m: &Model, time64: bool, ind: Indicators, transitions: &[(i64, usize)]) -> Vec<u8> {
+fn block(m: &Model, time64: bool, ind: Indicators, transitions: &[(i64, usize)], extra_chars: usize) -> Vec<u8> {
     // designation table: unique abbreviations, NUL-terminated
     let mut table: Vec<u8> = vec![];
     let mut index: Vec<u8> = vec![];
@@ -303,6 +303,7 @@ fn block(m: &Model, time64: bool, ind: Indicators, transitions: &[(i64, usize)])
         out.push(*idx);
     }
     out.extend(&table);
+    out.extend(unused_designations(extra_chars));
     // no leap-second records
     let n = m.types.len();
     match ind {
@@ -320,6 +321,13 @@ fn header(version: Version, isut: usize, isstd: usize, leap: usize, time: usize,
     for c in [isut, isstd, leap, time, typ, chars] { h.extend((c as u32).to_be_bytes()); }
     h
 }
+/// `n` bytes of well-formed but unused designations ("UNU\0UNU\0...")
+fn unused_designations(n: usize) -> Vec<u8> {
+    let mut v = vec![];
+    while v.len() + 4 <= n { v.extend(b"UNU\0"); }
+    while v.len() < n { v.push(0); }
+    v
+}
 fn chars_len(m: &Model) -> usize {
     let mut table: Vec<u8> = vec![];
     for t in &m.types {
@@ -331,14 +339,18 @@ fn chars_len(m: &Model) -> usize {
 /// a conforming TZif writer. v1: 32-bit block only (transitions must fit). v2/v3: 32-bit block with
 /// the transitions that fit in 32 bits, 64-bit block, footer.
 pub fn write_tzif(m: &Model, version: Version, ind: Indicators, explicit_footer: bool) -> Vec<u8> {
+    write_tzif_ext(m, version, ind, explicit_footer, 0)
+}
+/// as `write_tzif`, with `extra_chars` bytes of unused designations appended to the table
+pub fn write_tzif_ext(m: &Model, version: Version, ind: Indicators, explicit_footer: bool, extra_chars: usize) -> Vec<u8> {
     let n = m.types.len();
     let icount = if ind == Indicators::None { 0 } else { n };
     let fits32: Vec<(i64, usize)> = m.transitions.iter().copied().filter(|t| t.0 >= i32::MIN as i64 && t.0 <= i32::MAX as i64).collect();
-    let mut out = header(version, icount, icount, 0, fits32.len(), n, chars_len(m));
-    out.extend(block(m, false, ind, &fits32));
+    let mut out = header(version, icount, icount, 0, fits32.len(), n, chars_len(m) + extra_chars);
+    out.extend(block(m, false, ind, &fits32, extra_chars));
     if version != Version::V1 {
-        out.extend(header(version, icount, icount, 0, m.transitions.len(), n, chars_len(m)));
-        out.extend(block(m, true, ind, &m.transitions));
+        out.extend(header(version, icount, icount, 0, m.transitions.len(), n, chars_len(m) + extra_chars));
+        out.extend(block(m, true, ind, &m.transitions, extra_chars));
         out.push(b'\n');
         if let Some(r) = &m.footer { out.extend(r.to_tz_string(explicit_footer).bytes()); }
         out.push(b'\n');
